@@ -599,7 +599,7 @@ func (m *Machine) globalVar(pkg, name string) value {
 	if !ok {
 		return iface{}
 	}
-	return *m.globals[g]
+	return *m.global(g)
 }
 
 func (m *Machine) newCtx(parent *ctxState) iface {
